@@ -267,9 +267,51 @@ def judge_inproc(run: Run, res):
         run.nontriv(chash(["i", res["seed"]]))
 
 
+
+def eval_corpus_hashseed(arg):
+    """A corpus program (check-*.test case, real typeshed) checked in fresh processes under several hash seeds."""
+    name, files, flags, hseeds = arg
+    root = mypyrun.scratch("c10c")
+    res = {"name": name, "files": files, "flags": flags, "runs": []}
+    try:
+        mypyrun.write_files(root, files)
+        for hs in hseeds:
+            cdir = mypyrun.scratch("c10cc")
+            try:
+                mypyrun.seed_for(histrun.COMMON + flags, "c10").copy_to(cdir)
+                out, err, stt = mypyrun.run_sub(histrun.COMMON + flags + ["--cache-dir", cdir, "main.py"], cwd=root, env={"PYTHONHASHSEED": str(hs)}, timeout=600)
+                res["runs"].append({"hs": hs, "status": stt, "out": out, "err": err[-600:]})
+            finally:
+                mypyrun.rmtree(cdir)
+    finally:
+        mypyrun.rmtree(root)
+    return res
+
+
+def judge_corpus_hashseed(run: Run, res):
+    runs = res["runs"]
+    if not runs or any(r["status"] not in (0, 1, 2) or "Traceback (most recent call last)" in r["err"] or "INTERNAL ERROR" in r["out"] + r["err"] for r in runs):
+        run.label("corpus_hashseed_crashed_case_skipped")
+        return
+    base = runs[0]
+    case = {"sub": "corpus-hashseed", "name": res["name"], "files": res["files"], "flags": res["flags"], "hseeds": [r["hs"] for r in runs]}
+    run.count(len(runs) - 1)
+    if base["out"].strip():
+        run.nontriv(chash(["ch", res["files"]]))
+    for r in runs[1:]:
+        if (r["status"], r["out"]) != (base["status"], base["out"]):
+            d = first_diff(base["out"], r["out"])
+            la, lb = base["out"].splitlines(), r["out"].splitlines()
+            klass = "order" if sorted(la) == sorted(lb) else "content"
+            run.report("hash-seed|corpus-stdout|%s|%s" % (klass, code_of_line(d.split(": ", 1)[-1].split(" vs ")[0].strip("'\""))), case, "program %s: stdout differs between PYTHONHASHSEED=%s and %s: %s" % (res["name"], base["hs"], r["hs"], d), instance=chash(res["files"]))
+            break
+
+
 def replay(run: Run, case: dict, origin: str | None = None) -> bool:
     before = len(run.violations)
-    if case["sub"] == "hashseed":
+    if case["sub"] == "corpus-hashseed":
+        judge_corpus_hashseed(run, eval_corpus_hashseed((case["name"], case["files"], case["flags"], case.get("hseeds") or [0, 1, 2, 3, 4, 5, 6, 7])))
+    elif case["sub"] == "hashseed":
         judge_hashseed(run, eval_hashseed((case["seed"], case["nmods"], case["fmt"], [0, 1, 2, 3], (case["st0"], case["ops"]))))
     elif case["sub"] == "perm":
         judge_perm(run, eval_perm((case["seed"], case["nmods"], 6, (case["st0"], []))))
@@ -287,7 +329,8 @@ def run(run: Run) -> None:
         "(i) G2 projects (4-9 modules) checked in fresh processes under PYTHONHASHSEED in {0,1,2,random}: stdout bytes, data/meta_ex record bytes (fs store, binary or JSON) and JSON meta records without mtimes must coincide; "
         "(ii) acyclic G2 projects: original, reversed and random permutations of the file arguments -> same set of diagnostics and exit status; "
         "(iii) in one interpreter a generated sequence of 3-8 unrelated builds (corpus programs with/without their flags, other projects, a build stopped by blockers, an in-process dmypy Server used once) then the project via mypy.api.run == fresh process. "
-        "Non-trivial: >=3 modules with diagnostics; permutations with diagnostics; histories with >=3 preceding builds of which one failed."
+        "(iv) programs of the repository's check-test corpus (real typeshed, their own flags) in fresh processes under 3 (thorough: 5) hash seeds: identical stdout and exit status. "
+        "Non-trivial: >=3 modules with diagnostics; permutations with diagnostics; histories with >=3 preceding builds of which one failed; corpus programs that print diagnostics."
     )
     run.assumptions = ["typeshed records come from a shared seed cache and are not compared; only records of the user's modules", "binary meta records are not compared (they embed mtimes); their fields are covered through the JSON-format cases"]
     seeds = []
@@ -322,3 +365,22 @@ def run(run: Run) -> None:
         k += 1
         if k <= 2:
             run.sample({"relation": "earlier builds in the same interpreter", "preceding": res["pre"], "equal": (res["in"]["status"], res["in"]["raw"]) == (res["fresh"]["status"], res["fresh"]["raw"])})
+    # (iv) programs of the repository's check-test corpus (real typeshed) under several hash seeds
+    from vp import corpus
+    from vp.props.c13 import drop_flags
+
+    rnd = random.Random(run.seed)
+    cases = [c for c in corpus.load() if "main.py" in c.files]
+    rnd.shuffle(cases)
+    cwork = []
+    for c in cases[: (40 if q else 1500)]:
+        fl = drop_flags(corpus.safe_flags(c.flags), ("--show-", "--hide-", "--pretty", "--no-pretty", "--no-error-summary", "--error-summary", "--soft-error-limit", "--native-parser", "--no-native-parser"))
+        cwork.append((c.name, c.files, fl, [0, 1, 2] if q else [0, 1, 2, 3, 4]))
+    k = 0
+    for res in pmap(eval_corpus_hashseed, cwork, recycle=20):
+        judge_corpus_hashseed(run, res)
+        k += 1
+        if k <= 2 and res["runs"]:
+            run.sample({"relation": "hash seed (corpus program)", "program": res["name"], "stdout_lines": res["runs"][0]["out"].count("\n"), "hash_seeds": [r["hs"] for r in res["runs"]]})
+        if run.out_of_time(280 if q else 3400):
+            break
